@@ -335,6 +335,9 @@ func runC02(s *Sim) {
 	// and catch-up has to bring those across.
 	if !fenceOpen("c02-delete") && wl.Chance(1, 3) {
 		cfg.Phased, cfg.PreSync, cfg.Faults = true, true, 0
+		if cfg.Period > 4 {
+			cfg.Period = 1 + cfg.Period%4 // the phases wait for whole sync periods: keep them short
+		}
 	}
 	s.DelayPM = cfg.DelayPM
 	up := s.NewInstance("up", "")
